@@ -1,6 +1,8 @@
 (* C09 property theorems. This file contains only statements closed by
    [exact lemma] and Print Assumptions. *)
 From V Require Import Common.Base C09.Cache C09.CacheProofs C09.OptionFields C09.OptionFieldsProofs C09.Watch C09.WatchProofs.
+From V Require Import C09.CacheSet C09.CacheSetProofs C09.AstWrites C09.AstWritesProofs.
+From V Require Import gen.AstWritesGen.
 From V Require Import gen.OptionFieldsGen.
 Require Import Coq.Strings.String.
 Open Scope string_scope.
@@ -95,30 +97,120 @@ Print Assumptions coverage_implies_memo_transparent.
 
 (* ---- watch mode ----
    For EVERY log of observations (ReadDirectory, per-name lookups, full
-   listings, ReadFile, ModKey) made on a file system w, in which each path is
-   observed either as a directory or as a file, and every later file system w':
-   if none of the watch predicates computed by WatchData() is dirty on w', then
-   every observation of the log answers on w' what it answered on w - in
-   particular the "looked for and not found" lookups (wasPresent = false,
-   stateFileMissing, stateDirUnreadable).  Hypotheses on paths read as files:
-   each is a readable regular file or absent in both worlds (coherent_at), an
-   unchanged usable mod key means unchanged contents, a real mod key is not the
-   zero value.  Not covered (no watch record exists): the kind of an entry
-   (lstat) and the original-case spelling of a present entry. *)
+   listings, ReadFile, ModKey, entry kind / symlink target) made on a file
+   system w and every later file system w': if none of the watch predicates
+   computed by WatchData() is dirty on w', then every observation of the log
+   answers on w' what it answered on w - in particular the "looked for and not
+   found" lookups (wasPresent = false, stateFileMissing, stateDirUnreadable).
+   Hypotheses, each the negation of one recorded finding's shape or a standing
+   assumption of the property:
+   - wf_path: no path is observed in two kinds (as a directory and as a file);
+     finding F is the refutation without it;
+   - kind_hyps: no symlink resolution - the entries whose kind the build asks
+     for are plain entries in both worlds (findings G and G2 are the
+     refutations without it), their kind agrees with the file system
+     (file <-> stat says file, directory <-> listable, present <-> has a kind),
+     and kind_companions: the build used the entry the way the resolver does
+     (it came from a Get; a file was then read, a directory then listed);
+   - file_hyps: a path read as a file is a readable regular file or absent in
+     both worlds, an unchanged usable mod key means unchanged contents
+     ("modification times advance normally"), a real mod key is not the zero value.
+   Not covered: the original-case spelling of a present entry. *)
 Theorem watch_covers_observations :
-  forall w w' log,
+  forall (child : path -> name -> path) w w' log,
     (forall o, In o log -> wf_path log (obs_path o)) ->
     (forall o, In o log -> is_file_op o = true -> file_hyps w w' (obs_path o)) ->
+    (forall d n, In (OKind d n) log ->
+       kind_hyps child w d n /\ kind_hyps child w' d n /\ kind_companions child log w d n) ->
     clean w' (finalize w (record w log)) = true ->
     all_same w w' log = true.
 Proof. exact watch_covers_observations_all. Qed.
 Print Assumptions watch_covers_observations.
 
-(* without "each path is observed either as a directory or as a file" the
-   statement is false of the faithful model (finding F, replayed on the real
-   code by harness stream c09/known): a directory whose listing was consulted
-   for a missing name and that is afterwards read as a file loses its record *)
+(* The unrestricted statement is false of the faithful model in exactly the
+   three recorded shapes, each replayed on the real code by stream c09/known:
+   F - a directory whose listing was consulted for a missing name and that is
+       afterwards read as a file loses its record (violates wf_path); *)
 Theorem watch_covers_observations_unrestricted_refuted :
   clean f_w' (finalize f_w (record f_w f_log)) = true /\ all_same f_w f_w' f_log = false.
 Proof. exact watch_unrestricted_refuted. Qed.
 Print Assumptions watch_covers_observations_unrestricted_refuted.
+
+(* G - a symlink is re-pointed: entry, old target and every record unchanged,
+       the resolved target differs (violates "no symlink resolution"); *)
+Theorem watch_covers_observations_symlink_retarget_refuted :
+  clean (g_world 6) (finalize (g_world 5) (record (g_world 5) g_log)) = true /\
+  all_same (g_world 5) (g_world 6) g_log = false.
+Proof. exact watch_symlink_retarget_refuted. Qed.
+Print Assumptions watch_covers_observations_symlink_retarget_refuted.
+
+(* G2 - the missing target of a dangling symlink appears (same hypothesis). *)
+Theorem watch_covers_observations_dangling_symlink_refuted :
+  clean (g2_world false) (finalize (g2_world true) (record (g2_world true) g2_log)) = true /\
+  all_same (g2_world true) (g2_world false) g2_log = false.
+Proof. exact watch_dangling_symlink_refuted. Qed.
+Print Assumptions watch_covers_observations_dangling_symlink_refuted.
+
+(* ---- the whole cache set, including the resolver's cached reads ----
+   For every edit history and every build program over the full interface
+   (FSCache.ReadFile, JSCache, CSSCache, JSONCache - three parsers, three
+   option comparisons), rebuilding on the context's cache set returns what a
+   fresh build returns. *)
+Theorem rebuild_eq_fresh_cacheset :
+  forall (src jopts jres copts cres nopts nres R : Type) (key_of : src -> Z) (src_eqb : src -> src -> bool)
+         (jequal : jopts -> jopts -> bool) (cequal : copts -> copts -> bool) (nequal : nopts -> nopts -> bool)
+         (jparse : src -> jopts -> jres) (cparse : src -> copts -> cres) (nparse : src -> nopts -> nres),
+    (forall a b, src_eqb a b = true -> a = b) ->
+    (forall s o o', jequal o o' = true -> jparse s o = jparse s o') ->
+    (forall s o o', cequal o o' = true -> cparse s o = cparse s o') ->
+    (forall s o o', nequal o o' = true -> nparse s o = nparse s o') ->
+    forall steps : list (world * build3 src jopts jres copts cres nopts nres R),
+      ModKeySound (map fst steps) ->
+      rebuilds3 src jopts jres copts cres nopts nres R key_of src_eqb jequal cequal nequal jparse cparse nparse cs_empty steps
+      = map (fun wb => run_fresh3 src jopts jres copts cres nopts nres R jparse cparse nparse (fst wb) (snd wb)) steps.
+Proof. exact rebuild_eq_fresh_cacheset_all. Qed.
+Print Assumptions rebuild_eq_fresh_cacheset.
+
+(* the resolver's package.json / tsconfig.json read (file cache keyed by path
+   and mod key in front of the JSON cache keyed by path and compared on the
+   source): on any cache state left by earlier builds it continues with the
+   parsed value of the file's CURRENT contents, or with "unreadable" *)
+Theorem resolver_json_read_transparent :
+  forall (src jopts jres copts cres nopts nres R : Type) (key_of : src -> Z) (src_eqb : src -> src -> bool)
+         (jequal : jopts -> jopts -> bool) (cequal : copts -> copts -> bool) (nequal : nopts -> nopts -> bool)
+         (jparse : src -> jopts -> jres) (cparse : src -> copts -> cres) (nparse : src -> nopts -> nres),
+    (forall a b, src_eqb a b = true -> a = b) ->
+    (forall s o o', jequal o o' = true -> jparse s o = jparse s o') ->
+    (forall s o o', cequal o o' = true -> cparse s o = cparse s o') ->
+    (forall s o o', nequal o o' = true -> nparse s o = nparse s o') ->
+    forall ws, ModKeySound ws ->
+    forall (mk_src : path -> Z -> src) p o (k : option nres -> build3 src jopts jres copts cres nopts nres R) w c,
+      In w ws -> cs_ok src jopts jres copts cres nopts nres jparse cparse nparse ws c ->
+      fst (run_cached3 src jopts jres copts cres nopts nres R key_of src_eqb jequal cequal nequal jparse cparse nparse w c
+             (read_json mk_src p o k))
+      = run_fresh3 src jopts jres copts cres nopts nres R jparse cparse nparse w
+          (k (match w_read w p with RdOk cts => Some (nparse (mk_src p cts) o) | RdErr _ => None end)).
+Proof. exact resolver_json_read_transparent_all. Qed.
+Print Assumptions resolver_json_read_transparent.
+
+(* ---- cached ASTs are immutable: the linker and the bundler write on clones ----
+   over translator T9's regenerated inventory of every write whose target is
+   reached through AST-derived storage in internal/linker/linker.go and
+   internal/bundler/bundler.go: the writes that land in storage the cached AST
+   still references are EXACTLY the justified allow-list (AstWrites.v), and the
+   levels the "cloned level" class relies on are the ones CloneLinkerGraph clones *)
+Theorem linker_writes_only_on_clones : shared_sites ast_write_sites = ast_write_allowlist.
+Proof. exact shared_sites_exact. Qed.
+Print Assumptions linker_writes_only_on_clones.
+
+Theorem cloned_levels_as_expected : cloned_levels = expected_cloned_levels.
+Proof. exact cloned_levels_exact. Qed.
+Print Assumptions cloned_levels_as_expected.
+
+(* the rewrite of a JSON module's default-export object happens on a property
+   list the function re-created (the obligation the second seeded change broke) *)
+Theorem json_default_export_rewrite_on_clone :
+  existsb (fun s => String.eqb (ws_lhs s) "objectClone.Properties[i].ValueOrNil" &&
+                    negb (is_shared (ws_class s))) ast_write_sites = true.
+Proof. exact json_default_export_rewrite_is_on_a_clone. Qed.
+Print Assumptions json_default_export_rewrite_on_clone.
